@@ -17,3 +17,31 @@ package util
 //@   loop 1 invariant [dom] forall k string :: has(ordering, k) ==> 0 <= ordering[k] && ordering[k] < #iter && o[ordering[k]] == k
 //@   loop 1 invariant [cover] forall j int :: 0 <= j && j < #iter ==> has(ordering, o[j])
 //@   loop 1 invariant [nonnil] ordering != nil
+
+// ---- release list sorting (sorter.go), used by pkg/storage (C01)
+
+//@ ghost func relsNonNil(l []*rspb.Release) bool = forall j int :: 0 <= j && j < len(l) ==> l[j] != nil
+//@ ghost func ascByRevision(l []*rspb.Release) bool = forall a, b int :: 0 <= a && a < b && b < len(l) ==> l[a].Version <= l[b].Version
+//@ ghost func descByRevision(l []*rspb.Release) bool = forall a, b int :: 0 <= a && a < b && b < len(l) ==> l[a].Version >= l[b].Version
+
+//@ func ByRevision.Less
+//@   props C01
+//@   requires 0 <= i && i < len(s.list) && 0 <= j && j < len(s.list) && s.list[i] != nil && s.list[j] != nil
+//@   ensures result == (s.list[i].Version < s.list[j].Version)
+
+//@ func SortByRevision
+//@   props C01
+//@   trusted
+//@   requires relsNonNil(list)
+//@   ensures [sorted] ascByRevision(list)
+//@   ensures [same-elements] permuted(list)
+//@   ensures [releases-untouched] forall r *rspb.Release :: r.Version == old(r.Version) && r.Name == old(r.Name) && r.Info == old(r.Info)
+
+//@ func Reverse
+//@   props C01
+//@   trusted
+//@   requires relsNonNil(list)
+//@   ensures [sorted] sortFn == SortByRevision ==> descByRevision(list)
+//@   ensures [head-is-max] sortFn == SortByRevision && len(list) > 0 ==> (forall j int :: 0 <= j && j < len(list) ==> old(list[j].Version) <= list[0].Version) && (exists j int :: 0 <= j && j < len(list) && list[0] == old(list[j]))
+//@   ensures [releases-untouched] forall r *rspb.Release :: r.Version == old(r.Version) && r.Name == old(r.Name) && r.Info == old(r.Info)
+//@   ensures [same-elements] permuted(list)
